@@ -43,3 +43,25 @@ Example C04_src_transcribe_example :
   /\ re_read (sch_of_string "(?i)GGTCTC[ACGTN]([ACGTN]*?)") =
      Some [Atom [cG]; Atom [cG]; Atom [cT]; Atom [cC]; Atom [cT]; Atom [cC]; Atom setN; Open; StarL setN; Close].
 Proof. vm_compute. split; reflexivity. Qed.
+
+(* ALL concrete kit classes (Gen/Kits.v: the texts their structure() returns on the working tree): the
+   text DNARegex compiles for the class — _transcribe as regenerated, run on the class's text — reads,
+   as re reads it, as the pattern of the class in the table, i.e. the pattern every typing theorem about
+   the kits is stated with *)
+From MV Require Import KitLookup Glue.
+From MV.Gen Require Import Kits.
+
+Definition compiled_ok (p : string * (string * option (string * string))) : bool :=
+  let '(n, (text, _)) := p in
+  match find (fun k => String.eqb (kname k) n) kits with
+  | None => false
+  | Some k =>
+    match DNARegex_transcribe tt (sch_of_string text) with
+    | Ok t => option_eqb pattern_eqb (re_read t) (Some (cpat (kcls k)))
+    | Err _ => false
+    end
+  end.
+
+Theorem C04_kits_compiled_texts : forallb compiled_ok kit_texts = true /\ List.length kit_texts = List.length kits.
+Proof. vm_compute. split; reflexivity. Qed.
+Print Assumptions C04_kits_compiled_texts.
